@@ -96,7 +96,13 @@ class Ctx:
     def forall(self, tds: list[tuple[TD, str]], body: Callable[..., Any], patterns: Callable[..., list] | None = None) -> SV:
         """Universally quantified ghost variables: skolem constants when proving, ForAll when assuming."""
         if self.mode == "prove":
-            vs = [td.fresh("g_" + n) for td, n in tds]
+            memo = self.ex.__dict__.setdefault("ghost_consts", {})
+            vs = []
+            for td, n in tds:
+                key = (n, str(td.sort))
+                if key not in memo:
+                    memo[key] = SV(td, z3.Const("g_" + n, td.sort))
+                vs.append(memo[key])
             return smt.lift(body(*vs))
         vs = [SV(td, z3.Const(smt.fresh_name("q_" + n), td.sort)) for td, n in tds]
         b = smt.lift(body(*vs)).z
@@ -109,6 +115,23 @@ class Registry:
         self.contracts: dict[str, Contract] = {}
         self.constructor_hooks: dict[str, list[Clause]] = {}  # class name -> obligations at each construction site
         self.constructor_facts: dict[str, list[Clause]] = {}
+        # class name -> invariants every existing object of that class satisfies (assumed when an object is
+        # read, proved at every construction site)
+        self.object_invariants: dict[str, list[Clause]] = {}
+        self.replay: dict[str, Callable] = {}
+        self.witness_classes: dict[str, Callable] = {}
+        self.modules_loaded: set[str] = set()
+
+    def load(self, *modules: str) -> "Registry":
+        """Load sidecar contract modules (idempotent)."""
+        import importlib
+
+        for m in modules:
+            if m in self.modules_loaded:
+                continue
+            self.modules_loaded.add(m)
+            importlib.import_module("contracts." + m).register(self)
+        return self
 
     def contract(self, key: str, **kw: Any) -> Contract:
         if key in self.contracts:
@@ -122,6 +145,11 @@ class Registry:
 
     def get(self, key: str) -> Contract | None:
         return self.contracts.get(key)
+
+    def object_invariant(self, cls_name: str, label: str, fn: Callable[[Ctx, SV], Any], assumed_only: bool = False) -> None:
+        cl = Clause(label, fn)
+        cl.assumed_only = assumed_only  # type: ignore[attr-defined]
+        self.object_invariants.setdefault(cls_name, []).append(cl)
 
     def on_construct(self, cls_name: str, label: str, fn: Callable[[Ctx], Any]) -> None:
         self.constructor_hooks.setdefault(cls_name, []).append(Clause(label, fn))
